@@ -519,6 +519,7 @@ RAW_ALLOC = ("from_elem", "with_capacity", "try_with_capacity", "try_reserve", "
 
 def rule_account_first(ctx):
     """the budget is charged before the memory is taken"""
+    from ..mirutil import helper_reaches
     rid = "R-ACCOUNT-FIRST"
     ctx.rule(rid, "in every function that both charges the tracker (calls AllocTracker::alloc, or hands a closure that does to "
                   "Option::map / and_then / ...) and allocates (vec![..], Vec::with_capacity, reserve, try_reserve, resize): an "
@@ -530,9 +531,18 @@ def rule_account_first(ctx):
         if f.kind == "Promoted":
             continue
         charge = set()
+        cr_f = ctx.prog.crate(f.crate)
         for b, t in f.calls():
             c = callee(t)
-            if c and c["fn"].endswith("AllocTracker::alloc"):
+            if not c:
+                continue
+            if c["fn"].endswith("AllocTracker::alloc"):
+                charge.add(b)
+                continue
+            # a private helper that charges (`Self::charge(tracker, len)?`)
+            h = cr_f.fns.get(c.get("res") or c["fn"]) or cr_f.fns.get(c["fn"])
+            if h is not None and h is not f and "AllocHandle" in str(f.local_ty(t[3][0]) if t[3] else "") \
+                    and helper_reaches(cr_f, h, lambda n: n.endswith("AllocTracker::alloc"), depth=1):
                 charge.add(b)
         # closures that charge, created here
         for b, blk in enumerate(f.blocks):
